@@ -388,18 +388,18 @@ def rule_stream(rep: Report, rid="C17.order") -> None:
         if n[0] in ("parse", "compile", "yield", "yieldfrom"):
             seq.append((n, nf.guards_in_ctx(c), nf.loops_in_ctx(c)))
     kinds = []
-    opt = lambda o: ("attr", ("attr", selft, "options"), o)
+    opt = lambda o: ("attr", ("attr", selft, N.GE_OPTIONS), o)
     ok_all = True
     details = []
     for n, gs, loops in seq:
         if n[0] == "parse":
             kinds.append("parse")
-            ok = not gs and n[1][1] == data and n[1][0] == ("attr", selft, "parser")
+            ok = not gs and n[1][1] == data and n[1][0] == ("attr", selft, N.GE_PARSER)
             details.append(("parse", ok))
         elif n[0] == "compile":
             kinds.append("compile")
             d = nf.resolve_ref_dict(I, n[1][1], tree) if len(n[1]) > 1 else None
-            ok = gs == [(opt("print_pickles"), True)] and n[1][0] == ("attr", selft, "compiler") and d is not None and d.get("uri", (None,))[0] == uri \
+            ok = gs == [(opt("print_pickles"), True)] and n[1][0] == ("attr", selft, N.GE_COMPILER) and d is not None and d.get("uri", (None,))[0] == uri \
                 and ("dyn", ("parse_result",)) not in d and any(e[0] == "**" and e[1] == ("parse_result",) for e in I.obj(n[1][1]).entries)
             details.append(("compile gated by print_pickles only, on {**document, uri}", ok))
         elif n[0] == "yield":
@@ -481,13 +481,13 @@ def rule_stream(rep: Report, rid="C17.order") -> None:
     rep.used_function(fi3.qualname)
     s3 = ("param", fi3.params()[0])
     rep.ob(rid, "the stream keeps the options it was given (each envelope kind is gated by its own option)",
-           len(fi3.params()) > 1 and st3.ext.get((s3, "options")) == ("param", fi3.params()[1]), file=fi3.file, line=fi3.node.lineno, function=fi3.qualname,
-           expected="self.options = options", found=fmt(st3.ext.get((s3, "options")), I3) if st3.ext.get((s3, "options")) else "never stored")
+           len(fi3.params()) > 1 and st3.ext.get((s3, N.GE_OPTIONS)) == ("param", fi3.params()[1]), file=fi3.file, line=fi3.node.lineno, function=fi3.qualname,
+           expected="self.options = options", found=fmt(st3.ext.get((s3, N.GE_OPTIONS)), I3) if st3.ext.get((s3, N.GE_OPTIONS)) else "never stored")
     gen = st3.ext.get((s3, "id_generator"))
-    par = st3.ext.get((s3, "parser"))
-    comp = st3.ext.get((s3, "compiler"))
+    par = st3.ext.get((s3, N.GE_PARSER))
+    comp = st3.ext.get((s3, N.GE_COMPILER))
     ok = gen is not None and isinstance(I3.obj(gen), HInst) and I3.obj(gen).cls.name == "IdGenerator"
-    b = st3.ext.get((par, "ast_builder")) if par else None
+    b = st3.ext.get((par, N.PARSER_BUILDER)) if par else None
     ok = ok and b is not None and st3.ext.get((b, "id_generator")) == gen and comp is not None and st3.ext.get((comp, "id_generator")) == gen
     rep.ob("C11.gen" if rid.startswith("C11") else rid, "the stream's builder and compiler draw from one and the same id generator object", ok,
            file=fi3.file, line=fi3.node.lineno, function=fi3.qualname, expected="Parser(AstBuilder(g)), Compiler(g) with the same g",
